@@ -44,37 +44,56 @@ class SimDisk:
         self.probes[name] = self.probes.get(name, 0) + 1
 
     # -- the seam: assigned to <module>.open
-    def open(self, file, mode="r", *args, **kwargs):
+    def open(self, file, mode="r", buffering=-1, encoding=None, errors=None, newline=None, *args, **kwargs):
+        """text and binary modes r / w / a / x with optional '+', like the builtin (the library itself uses
+        'r' and 'w'; the other modes exist so that a changed library meets a faithful device, not a harness error)"""
         path = os.fspath(file)
-        if mode not in ("r", "w", "rt", "wt"):
-            raise ValueError(f"simulated device supports text modes r/w only, got {mode!r}")
-        writing = mode.startswith("w")
+        m = mode.replace("t", "")
+        binary = "b" in m
+        m = m.replace("b", "")
+        plus = "+" in m
+        base = m.replace("+", "")
+        if base not in ("r", "w", "a", "x") or len(base) != 1:
+            raise ValueError(f"invalid mode: {mode!r}")
+        writing = base in ("w", "a", "x") or plus
+        reading = base == "r" or plus
         f = self.fault
-        if f and f.get("kind") == "open-fail" and not f.get("fired") and f.get("on", "any") in ("any", "w" if writing else "r"):
+        if f and f.get("kind") == "open-fail" and not f.get("fired") and f.get("on", "any") in ("any", "w" if base != "r" else "r"):
             f["fired"] = True
             self.ev(path, "open-fail", f["errno"])
             raise OSError(getattr(errno, f["errno"]), os.strerror(getattr(errno, f["errno"])), path)
+        if base == "r" and path not in self.files:
+            self.ev(path, "open-r-enoent")
+            raise FileNotFoundError(errno.ENOENT, os.strerror(errno.ENOENT), path)
+        if base == "x" and path in self.files:
+            raise FileExistsError(errno.EEXIST, os.strerror(errno.EEXIST), path)
         if writing:
             prev = self.state.get(path)
             if prev and prev[0] == "ack":
                 self.probe("overwrite_of_acknowledged_file")
             if prev and prev[0] == "bot" and prev[1] == "inflight":
                 self.probe("write_open_while_dump_in_flight")
-            self.files[path] = bytearray()        # 'w' truncates at open, like the real call
+            if base in ("w", "x") or path not in self.files:
+                self.files[path] = bytearray()        # 'w' truncates at open, like the real call
             self.wopened.add((self.step, path))
             self.state[path] = ("bot", "inflight", self.step)
-            self.ev(path, "open-w")
-            raw = SimRaw(self, path, True)
-            return io.TextIOWrapper(io.BufferedWriter(raw, buffer_size=self.buffer_size), encoding="utf-8")
-        if path not in self.files:
-            self.ev(path, "open-r-enoent")
-            raise FileNotFoundError(errno.ENOENT, os.strerror(errno.ENOENT), path)
-        st = self.state.get(path)
-        if st and st[0] == "bot" and st[1] == "inflight":
-            self.probe("load_while_dump_in_flight")
-        self.ev(path, "open-r")
-        raw = SimRaw(self, path, False)
-        return io.TextIOWrapper(io.BufferedReader(raw, buffer_size=self.buffer_size), encoding="utf-8")
+            self.ev(path, "open-" + mode)
+        else:
+            st = self.state.get(path)
+            if st and st[0] == "bot" and st[1] == "inflight":
+                self.probe("load_while_dump_in_flight")
+            self.ev(path, "open-r")
+        raw = SimRaw(self, path, reading, writing, append=(base == "a"))
+        bs = self.buffer_size if buffering in (-1, None) or buffering < 1 else buffering
+        if plus:
+            buf = io.BufferedRandom(raw, buffer_size=bs)
+        elif writing:
+            buf = io.BufferedWriter(raw, buffer_size=bs)
+        else:
+            buf = io.BufferedReader(raw, buffer_size=bs)
+        if binary:
+            return buf
+        return io.TextIOWrapper(buf, encoding=encoding or "utf-8", errors=errors, newline=newline)
 
     # -- model bookkeeping, called by the engine
     def seen_state(self, path):
@@ -99,24 +118,47 @@ class SimDisk:
 
 
 class SimRaw(io.RawIOBase):
-    def __init__(self, disk, path, writing):
+    def __init__(self, disk, path, reading, writing, append=False):
         super().__init__()
         self.disk = disk
         self.path = path
+        self.reading = reading
         self.writing = writing
-        self.pos = 0
+        self.append = append
+        self.pos = len(disk.files.get(path, b"")) if append else 0
         self.fault = disk.fault      # the fault armed for the step that opened this handle
         self.nshort = 0
         disk.open_handles += 1
 
     def readable(self):
-        return not self.writing
+        return self.reading
 
     def writable(self):
         return self.writing
 
     def seekable(self):
-        return False
+        return True
+
+    def tell(self):
+        return self.pos
+
+    def seek(self, offset, whence=0):
+        size = len(self.disk.files.get(self.path, b""))
+        if whence == 0:
+            self.pos = offset
+        elif whence == 1:
+            self.pos += offset
+        else:
+            self.pos = size + offset
+        if self.pos < 0:
+            self.pos = 0
+        return self.pos
+
+    def truncate(self, size=None):
+        buf = self.disk.files.setdefault(self.path, bytearray())
+        size = self.pos if size is None else size
+        del buf[size:]
+        return size
 
     def readinto(self, b):
         data = self.disk.files.get(self.path, b"")
@@ -164,7 +206,9 @@ class SimRaw(io.RawIOBase):
                 n = max(1, k)
                 f["fired"] = True
         buf = self.disk.files.setdefault(self.path, bytearray())
-        # like a real descriptor opened with O_TRUNC (no O_APPEND): write at own offset
+        if self.append:
+            self.pos = len(buf)
+        # like a real descriptor opened without O_APPEND: write at own offset
         if len(buf) < self.pos:
             buf.extend(b"\x00" * (self.pos - len(buf)))
         buf[self.pos:self.pos + n] = b[:n]
